@@ -31,3 +31,7 @@ Check (C04_attributes_end_at_the_written_brace : forall p rest, piece_ok 123 p -
 Check (C04_then_inside_a_literal_is_not_the_keyword : forall x content rest acc first,
   is_quote x = true -> ~ In x content ->
   scan_then (literal x content ++ rest) None acc first = scan_then rest None (rev (literal x content) ++ acc) false).
+Check (C04_split_at_the_written_then : forall c x w2 w3 y a,
+  c <> [] -> passes c (x :: w2 ++ s_then ++ w3 ++ y :: a) None true = true -> scan None c = None ->
+  ExprShape.ws_unicode x = true -> all_ws w2 -> w3 <> [] -> all_ws w3 -> ExprShape.ws_unicode y = false ->
+  scan_then (c ++ x :: w2 ++ s_then ++ w3 ++ y :: a) None [] true = Some (c, y :: a)).
